@@ -44,3 +44,9 @@ func (m *Manager) VReservationCount() int  { return len(m.reservations) }
 func (a *Allocation) VPermFor(ip net.IP) *Permission {
 	return a.permissions[(&net.UDPAddr{IP: ip}).IP.String()]
 }
+
+// VSameTCPRemote: the fake peer connection was dialled to exactly (ip, port).
+func VSameTCPRemote(c *VConn, ip net.IP, port int) bool {
+	t, ok := c.Remote.(*net.TCPAddr)
+	return ok && t.Port == port && vIPEq(t.IP, ip)
+}
